@@ -3,6 +3,7 @@ import ExponaxModel.Model.Interp
 import ExponaxModel.Proofs.LayoutLemmas
 import ExponaxModel.Proofs.DFT
 import ExponaxModel.Proofs.InterpExact
+import ExponaxModel.Proofs.InterpQuery
 /-
 C15 — Fourier interpolation and resolution changes.
 Index part of `map_between_resolutions`: the block copy preserves wavenumbers (all parity
@@ -128,5 +129,37 @@ theorem C15_refinement_keeps_samples (Nold p : ℕ) (ho : 0 < Nold) (hp : 2 ≤ 
     (u : Array ℂ) (hu : ∀ j < Nold, (u.getD j 0).im = 0) (j : ℕ) (hj : j < Nold) :
     (Interp.mapBetween 1 Nold (p * Nold) ob u).getD (p * j) 0 = u.getD j 0 :=
   Interp.I2b_subsample_odd Nold p ho hp hodd ob u hu j hj
+
+/-! ### arbitrary query points, inside or outside the domain (`Proofs/InterpQuery*.lean`) -/
+
+/-- THE ANALYTIC VALUE AT ANY REAL QUERY POINT: the Fourier interpolant of a superposition of modes strictly below
+    Nyquist returns `Σ a cos(Σ_d s κ_d x_d + φ)` at every real `x` — every D ≥ 1, every N -/
+theorem C15_interpolant_is_analytic (D N : ℕ) (hD : 0 < D) (hN : 0 < N) (s : ℝ) (ms : ExactLinear.Modes)
+    (hms : ∀ m ∈ ms, ExactLinear.BelowNyquist D N m.1) (x : List ℝ) :
+    Interp.interpolate D N (s : ℂ) (ExactLinear.stateOf D N ms) (Interp.cx x) =
+      ((ms.map fun m => m.2.1 * Real.cos (∑ d ∈ Finset.range D, s * (m.1.getD d 0 : ℤ) * x.getD d 0 + m.2.2)).sum : ℝ) :=
+  Interp.U2_interpolate_stateOf D N hD hN s ms hms x
+
+/-- periodic extension: shifting the query point by whole periods `L = 2π/s` along any axes does not change the value,
+    for EVERY state; in particular the value outside the domain is the value at the wrapped point -/
+theorem C15_interpolant_periodic (D N : ℕ) (s : ℂ) (hs : s ≠ 0) (u : Array ℂ) (x x' : List ℂ) (m : ℕ → ℤ)
+    (h : ∀ d < D, x'.getD d 0 = x.getD d 0 + (m d : ℂ) * (2 * (Real.pi : ℂ) / s)) :
+    Interp.interpolate D N s u x' = Interp.interpolate D N s u x :=
+  Interp.U3_interpolate_periodic D N s hs u x x' m h
+
+/-- every real band-limited grid state IS the sampling of a trigonometric polynomial, and the interpolant returns that
+    polynomial at every real point -/
+theorem C15_every_band_limited_state (D N : ℕ) (hD : 0 < D) (hN : 0 < N) (s : ℝ) (hs : s ≠ 0) (u : Array ℂ)
+    (hsz : u.size = N ^ D) (hu : ∀ j < N ^ D, (u.getD j 0).im = 0) (hb : ExactLinear.BandLimited D N u) :
+    ∃ ms, (∀ m ∈ ms, ExactLinear.BelowNyquist D N m.1) ∧ u = ExactLinear.stateOf D N ms ∧
+      ∀ x : List ℝ, Interp.interpolate D N (s : ℂ) u (Interp.cx x) = ((Interp.trigPoly D s ms (Interp.cx x) : ℝ) : ℂ) ∧
+        Interp.trigPoly D s ms (Interp.cx x) = Interp.trigPoly D s ms (Interp.cx (Interp.wrapPt s x)) :=
+  Interp.U4_interpolate_bandLimited_wrap D N hD hN s hs u hsz hu hb
+
+/-- the Nyquist-free hypothesis is sharp: at the Nyquist wavenumber the interpolant differs from the analytic value -/
+theorem C15_fails_at_nyquist :
+    Interp.interpolate 1 2 ((1 : ℝ) : ℂ) (ExactLinear.modeField 1 2 [1] 1 (Real.pi / 2)) (Interp.cx [Real.pi / 2]) ≠
+      ((1 * Real.cos (∑ d ∈ Finset.range 1, 1 * (([1] : List ℤ).getD d 0 : ℤ) * ([Real.pi / 2] : List ℝ).getD d 0
+        + Real.pi / 2) : ℝ) : ℂ) := Interp.U1_fails_at_nyquist
 
 end Exponax
